@@ -29,7 +29,7 @@ KERNELS = {
     "k_reinterpret": ["ptr"], "k_reinterpret_vol": ["cell:8"], "k_constcast": ["ptr"], "k_staticcast": ["ptr"],
     "k_opaque": ["ptr"],
     "k_malloc_int": ["n32"], "k_malloc_vs24": ["n32"], "k_malloc_one_long": [],
-    "k_app_pointer": ["any64"], "k_accept": ["any64"],
+    "k_app_pointer": ["any64"], "k_app_pointer_moved": ["any64", "any64", "i3"], "k_accept": ["any64"],
     "k_plain_plus_ptr": ["ptr", "n32"],
     "k_staticcast_mi": ["ptr"],
     "k_addrof_arr300_schar": ["ptr", "n8"], "k_addrof_arr40000_short": ["ptr", "n16"],
